@@ -262,4 +262,43 @@ def bip341Committed (ht : UInt32) (idx : Nat) : Field → Bool
   | .output j => if (ht &&& 3) == 2 then false else if (ht &&& 3) == 3 then j == idx else true
   | _ => false
 
+/-! ### the messages as functions of the signing context -/
+
+def Ctx.wf (c : Ctx) : Prop :=
+  c.tx.wf ∧ c.spent.length = c.tx.ins.length ∧ ∀ o ∈ c.spent, o.wf
+
+/-- amount of the output spent by input `idx` -/
+def Ctx.amount (c : Ctx) (idx : Nat) : UInt64 := ((c.spent[idx]?).map (·.value)).getD 0
+
+def legacyMsgC (scriptCode : Bytes) (ht : UInt32) (idx : Nat) (c : Ctx) : Option LegacyPre :=
+  legacyMsg scriptCode ht c.tx idx
+
+def bip143MsgC (H : Bytes → Bytes) (scriptCode : Bytes) (ht : UInt32) (idx : Nat) (c : Ctx) :
+    Option Bytes :=
+  bip143Msg H scriptCode ht c.tx idx (c.amount idx)
+
+def bip341MsgC (H : Bytes → Bytes) (ht : UInt32) (idx : Nat) (annex : Option Bytes)
+    (ext : Option TapExt) (c : Ctx) : Except TapErr Bytes :=
+  bip341Msg H ht c.tx c.spent idx annex ext
+
+/-! ### collision-freeness hypotheses (explicit, about concrete finite sets of byte strings) -/
+
+/-- `f` (a hash) behaves on the finite set `S`: 32-byte outputs, no collision inside `S`, no
+element hashing to 32 zero bytes. -/
+structure HashOK (f : Bytes → Bytes) (S : List Bytes) : Prop where
+  len : ∀ a ∈ S, (f a).length = 32
+  inj : ∀ a ∈ S, ∀ b ∈ S, f a = f b → a = b
+  nz : ∀ a ∈ S, f a ≠ zero32
+
+/-- the byte strings whose double-SHA256 enters the BIP143 message of input `idx` -/
+def bip143Hashed (idx : Nat) (tx : Tx) : List Bytes :=
+  [tx.ins.flatMap (fun i => outPointSer i.prev), tx.ins.flatMap (fun i => le32 i.sequence),
+   tx.outs.flatMap txOutSer] ++ ((tx.outs[idx]?).toList.map txOutSer)
+
+/-- the byte strings whose SHA256 enters the BIP341 message of input `idx` -/
+def bip341Hashed (idx : Nat) (c : Ctx) : List Bytes :=
+  [c.tx.ins.flatMap (fun i => outPointSer i.prev), c.spent.flatMap (fun o => le64 o.value),
+   c.spent.flatMap (fun o => varBytes o.pkScript), c.tx.ins.flatMap (fun i => le32 i.sequence),
+   c.tx.outs.flatMap txOutSer] ++ ((c.tx.outs[idx]?).toList.map txOutSer)
+
 end BV.C07.Spec
